@@ -84,7 +84,13 @@ def observe(sess, hist, op, exc, valid, reason, pre, acc):
     if sorted(cnt) != sorted(model.live):
         raise core.Violation("live-set!=model", kcommon.sig(PROP, "live-set!=model", op, cfg), None,
                              f"{where}: file {sorted(R.NAMES[t] for t in cnt)} model {sorted(R.NAMES[t] for t in model.live)}")
-    # ---- accessors
+    # ---- accessors: they depend on the state only, so in the BFS (where every transition starts from a
+    # fresh object) each canonical state is swept once; the chain walks always sweep
+    if _BFS_MEMO is not None:
+        k = kdriver.canon(sess)
+        if k in _BFS_MEMO:
+            return
+        _BFS_MEMO.add(k)
     n = p["n"]
     if len(tdf) != len(model.live):
         raise core.Violation("len", kcommon.sig(PROP, "len", op, cfg), None, f"{where}: len {len(tdf)} vs {len(model.live)} live")
@@ -161,10 +167,21 @@ def observe(sess, hist, op, exc, valid, reason, pre, acc):
                                  f"{where}: blocks lists {[R.NAMES.get(t) for t, _ in got]}, live {[R.NAMES[t] for t, _ in want]}")
 
 
-_shard = kcommon.make_run(__name__, "observe", include_invalid=True)
+_BFS_MEMO = None
+_bfs = kcommon.make_run(__name__, "observe", include_invalid=True, extra_ops=kcommon.unused_ops)
 
 
-_chain = kcommon.make_chain_run(__name__, "observe")
+def _shard(cfg_w):
+    global _BFS_MEMO
+    _BFS_MEMO = set()
+    try:
+        return _bfs(cfg_w)
+    finally:
+        _BFS_MEMO = None
+
+
+
+_chain = kcommon.make_chain_run(__name__, "observe", extra_ops=kcommon.unused_ops)
 
 
 def run(tier):
